@@ -137,3 +137,188 @@ def yearRatioExpr : String := {lean_str(YEAR_RATIO)}
 end StarsimModel.Gen
 '''
     return body, facts
+
+
+# ---------------------------------------------------------------------------
+# Round 3: how per-unit-time parameters are WRITTEN and consumed
+#
+# Generated/TimeDecls.lean
+#   wrapLost        TimePar.__new__ (the branch wrapping an ss.Dist): keywords of the caller that do NOT reach the TimePar built
+#                   for the distribution's first parameter = names captured by the signature and not forwarded in `cls(<par>, ...)`
+#   shortcuts       ss.days / years / perday / peryear: (function, class, unit) and whether v / parent_unit / parent_dt are forwarded
+#   poolBetaTest / poolBetaField   MixingPool.step: `if isinstance(beta, <T>): beta = beta.<field>`
+#   builtinDecls    every time-parameter declaration in define_pars(...) of the built-in modules:
+#                   (class, parameter, form plain|inside|wrapped, TimePar kind, declared unit or "~", parameter name starts with dur_)
+# facts also carry the declared VALUE (exact source arithmetic) for the oracle.
+
+TIME = 'starsim/time.py'
+NETS = 'starsim/networks.py'
+DECL_FILES = ['starsim/diseases/sir.py', 'starsim/diseases/cholera.py', 'starsim/diseases/ebola.py', 'starsim/diseases/measles.py', 'starsim/diseases/hiv.py',
+              'starsim/diseases/gonorrhea.py', 'starsim/diseases/ncd.py', 'starsim/diseases/syphilis.py', 'starsim/demographics.py', NETS]
+TP_CLASSES = ('dur', 'rate', 'time_prob', 'rate_prob', 'beta')
+
+
+def _num(node):
+    """ constant arithmetic of the source as a float (None when it is not constant arithmetic) """
+    if isinstance(node, ast.Constant) and isinstance(node.value, (int, float)) and not isinstance(node.value, bool):
+        return float(node.value)
+    if isinstance(node, ast.UnaryOp) and isinstance(node.op, ast.USub):
+        x = _num(node.operand); return None if x is None else -x
+    if isinstance(node, ast.BinOp) and isinstance(node.op, (ast.Add, ast.Sub, ast.Mult, ast.Div)):
+        a, b = _num(node.left), _num(node.right)
+        if a is None or b is None: return None
+        if isinstance(node.op, ast.Add): return a + b
+        if isinstance(node.op, ast.Sub): return a - b
+        if isinstance(node.op, ast.Mult): return a * b
+        return a / b if b != 0 else None
+    return None
+
+
+def _ss_call(node):
+    """ `ss.<name>(...)` / `<name>(...)` -> name """
+    if isinstance(node, ast.Call):
+        if isinstance(node.func, ast.Attribute) and isinstance(node.func.value, ast.Name) and node.func.value.id == 'ss': return node.func.attr
+        if isinstance(node.func, ast.Name): return node.func.id
+    return None
+
+
+def _shortcuts(src):
+    out = {}
+    for name in ('days', 'years', 'perday', 'peryear'):
+        fn = src.func(TIME, name)
+        rets = [n for n in ast.walk(fn) if isinstance(n, ast.Return)]
+        if len(rets) != 1 or _ss_call(rets[0].value) not in TP_CLASSES:
+            raise ExtractError(f'time.{name}: expected a single `return <TimePar class>(...)`')
+        call = rets[0].value
+        params = [a.arg for a in fn.args.args]
+        kws = {k.arg: k.value for k in call.keywords}
+        pos = call.args
+        first = kws.get('v', pos[0] if pos else None)
+        unit = kws.get('unit', pos[1] if len(pos) > 1 else None)
+        if not (isinstance(unit, ast.Constant) and isinstance(unit.value, str)):
+            raise ExtractError(f'time.{name}: the unit handed to {_ss_call(call)} is not a string literal')
+        fwd_v = isinstance(first, ast.Name) and params and first.id == params[0]
+        fwd_parent = all(isinstance(kws.get(k), ast.Name) and kws[k].id == k for k in ('parent_unit', 'parent_dt') if k in params)
+        out[name] = dict(cls=_ss_call(call), unit=unit.value, forwards_v=bool(fwd_v), forwards_parent=bool(fwd_parent))
+    return out
+
+
+def _wrap_lost(src):
+    new = src.func(TIME, '__new__', 'TimePar')
+    a = new.args
+    names = [x.arg for x in a.posonlyargs + a.args]
+    if len(names) < 2:
+        raise ExtractError(f'TimePar.__new__: signature changed: {names}')
+    captured = names[2:] + [x.arg for x in a.kwonlyargs]      # everything after (cls, v) is taken out of **kwargs
+    vname = names[1]
+    branch = None
+    for n in ast.walk(new):
+        if isinstance(n, ast.If) and isinstance(n.test, ast.Call) and unparse(n.test.func) == 'isinstance' and unparse(n.test.args[0]) == vname \
+                and 'Dist' in unparse(n.test.args[1]):
+            branch = n
+    if branch is None:
+        raise ExtractError('TimePar.__new__: the `isinstance(v, ss.Dist)` branch was not found')
+    calls = [n for b in branch.body for n in ast.walk(b) if isinstance(n, ast.Call) and isinstance(n.func, ast.Name) and n.func.id == new.args.args[0].arg]
+    if len(calls) != 1:
+        raise ExtractError(f'TimePar.__new__: expected exactly one `cls(...)` call in the distribution branch, found {len(calls)}')
+    call = calls[0]
+    forwarded = set(); star = False
+    for k in call.keywords:
+        if k.arg is None: star = True      # **kwargs
+        elif isinstance(k.value, ast.Name) and k.value.id == k.arg: forwarded.add(k.arg)
+        else: raise ExtractError(f'TimePar.__new__: keyword `{k.arg}={unparse(k.value)}` in the wrapping call is outside the supported forms')
+    if len(call.args) != 1 or 'pars' not in unparse(call.args[0]):
+        raise ExtractError(f'TimePar.__new__: the wrapping call is `{unparse(call)}`: expected cls(<first distribution parameter>, ...)')
+    keys = ['unit', 'parent_unit', 'parent_dt', 'self_dt']
+    lost = [k for k in keys if (k in captured and k not in forwarded) or (k not in captured and not star and k not in forwarded)]
+    return lost, unparse(call)
+
+
+def _pool_beta(src):
+    st = src.func(NETS, 'step', 'MixingPool')
+    found = []
+    for n in ast.walk(st):
+        if isinstance(n, ast.If) and isinstance(n.test, ast.Call) and unparse(n.test.func) == 'isinstance' and len(n.body) == 1 \
+                and isinstance(n.body[0], ast.Assign) and isinstance(n.body[0].value, ast.Attribute):
+            tgt = unparse(n.body[0].targets[0]); obj = unparse(n.body[0].value.value)
+            if tgt == obj == unparse(n.test.args[0]):
+                found.append((unparse(n.test.args[1]), n.body[0].value.attr))
+    if len(found) != 1:
+        raise ExtractError(f'MixingPool.step: expected one `if isinstance(beta, T): beta = beta.<field>`, found {found}')
+    if found[0][1] not in ('values', 'v'):
+        raise ExtractError(f'MixingPool.step: beta.{found[0][1]} is outside the supported vocabulary (values, v)')
+    return found[0]
+
+
+def _decls(src, shortcuts):
+    tpnames = set(TP_CLASSES) | set(shortcuts)
+
+    def tp_info(call):
+        """ (kind, unit, first-argument node) of a TimePar call """
+        name = _ss_call(call)
+        kws = {k.arg: k.value for k in call.keywords}
+        first = kws.get('v', call.args[0] if call.args else None)
+        if name in shortcuts:
+            return shortcuts[name]['cls'], shortcuts[name]['unit'], first
+        unit = kws.get('unit', call.args[1] if len(call.args) > 1 else None)
+        if unit is None or (isinstance(unit, ast.Constant) and unit.value is None): u = None
+        elif isinstance(unit, ast.Constant) and isinstance(unit.value, str): u = unit.value
+        else: raise ExtractError(f'declaration `{unparse(call)}`: unit is not a literal')
+        return name, u, first
+
+    out = []
+    for rel in DECL_FILES:
+        for cls in [n for n in ast.walk(src.tree(rel)) if isinstance(n, ast.ClassDef)]:
+            for call in [n for n in ast.walk(cls) if isinstance(n, ast.Call) and unparse(n.func) == 'self.define_pars']:
+                for kw in call.keywords:
+                    val = kw.value
+                    name = _ss_call(val)
+                    if name is None: continue
+                    if name in tpnames:
+                        kind, unit, first = tp_info(val)
+                        if first is not None and _ss_call(first) is not None and _ss_call(first) not in tpnames:     # ss.days(ss.lognorm_ex(...))
+                            inner = first
+                            arg0 = inner.args[0] if inner.args else (inner.keywords[0].value if inner.keywords else None)
+                            key0 = None if inner.args else (inner.keywords[0].arg if inner.keywords else None)
+                            out.append(dict(cls=cls.name, par=kw.arg, form='wrapped', kind=kind, unit=unit, v=_num(arg0) if arg0 is not None else None,
+                                            dist=_ss_call(inner), key=key0, src=unparse(val)))
+                        else:
+                            out.append(dict(cls=cls.name, par=kw.arg, form='plain', kind=kind, unit=unit, v=_num(first) if first is not None else None,
+                                            dist=None, key=None, src=unparse(val)))
+                    else:                                                                                            # ss.lognorm_ex(mean=ss.dur(10))
+                        args = [(None, a) for a in val.args] + [(k.arg, k.value) for k in val.keywords]
+                        for key, a in args:
+                            if _ss_call(a) in tpnames:
+                                kind, unit, first = tp_info(a)
+                                out.append(dict(cls=cls.name, par=kw.arg, form='inside', kind=kind, unit=unit, v=_num(first) if first is not None else None,
+                                                dist=name, key=key, src=unparse(val)))
+    return out
+
+
+@generator('TimeDecls', [TIME] + DECL_FILES)
+def gen_time_decls(src):
+    shortcuts = _shortcuts(src)
+    lost, wrapcall = _wrap_lost(src)
+    ptest, pfield = _pool_beta(src)
+    decls = _decls(src, shortcuts)
+    if not decls:
+        raise ExtractError('no time-parameter declarations found in the built-in modules')
+    opt = lambda u: lean_str('~' if u is None else u)
+    rows = ',\n  '.join(f"({lean_str(d['cls'])}, {lean_str(d['par'])}, {lean_str(d['form'])}, {lean_str(d['kind'])}, {opt(d['unit'])}, {'true' if d['par'].startswith('dur_') else 'false'})"
+                        for d in decls)
+    sc_rows = ', '.join(f"({lean_str(k)}, {lean_str(v['cls'])}, {lean_str(v['unit'])}, {'true' if v['forwards_v'] and v['forwards_parent'] else 'false'})" for k, v in shortcuts.items())
+    body = f'''namespace StarsimModel.Gen
+/-- `TimePar.__new__`, distribution branch: the wrapping call is `{wrapcall}`; caller keywords that do not reach it -/
+def wrapLost : List String := [{', '.join(lean_str(k) for k in lost)}]
+/-- `ss.days / years / perday / peryear`: (function, class, unit, forwards v and the parent keywords) -/
+def shortcuts : List (String × String × String × Bool) := [{sc_rows}]
+/-- `MixingPool.step`: `if isinstance(beta, {ptest}): beta = beta.{pfield}` -/
+def poolBetaTest : String := {lean_str(ptest)}
+def poolBetaField : String := {lean_str(pfield)}
+/-- time-parameter declarations of the built-in modules: (class, parameter, form, kind, declared unit, name starts with dur_) -/
+def builtinDecls : List (String × String × String × String × String × Bool) := [
+  {rows}]
+end StarsimModel.Gen
+'''
+    facts = dict(wrapLost=lost, wrapCall=wrapcall, shortcuts=shortcuts, poolBetaTest=ptest, poolBetaField=pfield, decls=decls)
+    return body, facts
